@@ -169,6 +169,21 @@ def main():
                                           '    @property\n    def p(self): return 1\n    """string after property"""\n'
                                           '    def m(self):\n        self.p = 2\n        self.f = 3\n'
                                           'f = staticmethod(len)\n']], 'docformat': 'epytext'})
+    # inputs that once aborted the run (each has a `fixed:` entry in known_findings/C01.json) and near misses of them
+    cases.append({'files': [['rx.py', 'import re\nA = re.compile("a{99999999999999}")\nB = re.compile("(")\nC = re.compile(b"[z-a]")\n'
+                                      'D = re.compile("a" * 3)\nE = re.compile("(?P<n>x)(?P=n)\\\\1{2,1}")\n']], 'docformat': 'epytext'})
+    cases.append({'files': [['docassign.py', 'class C:\n    pass\nC.__doc__ = "doc \\udc80"\ndef f(): pass\nf.__doc__ = "x \\udfff y"\n'
+                                             'C.__doc__, f.__doc__ = "a", "b"\nC.nosuch.__doc__ = "z"\n']], 'docformat': 'restructuredtext'})
+    for bad in ('_types', '__init__', '_napoleon', 'nosuchformat', 'epytext.x', '', 'plaintext '):
+        cases.append({'files': [['df.py', '__docformat__ = %r\ndef f():\n    \'\'\'doc L{x}\'\'\'\n' % bad]], 'docformat': 'epytext'})
+    cases.append({'files': [['a.py', 'import b\n'], ['b.py', 'x = 1\n'], ['c.py', 'from a import b\n__all__ = [\'b\']\n']], 'docformat': 'epytext'})
+    cases.append({'files': [['m.py', 'from fake import x\nfrom fake.m import y\nimport fake\nz = 1\n']], 'docformat': 'epytext',
+                  'args': ['--prepend-package=fake']})
+    cases.append({'files': [['trip.py', 'import sys\ndef opener(): pass\nif sys.platform:\n    def opener(): pass\nif not sys.platform:\n    def opener(): pass\n'
+                                        'class K:\n    x = 1\n    x = 2\n    x = 3\n    def m(self): pass\n    def m(self): pass\n    def m(self): pass\n    def m(self): pass\n']],
+                  'docformat': 'epytext'})
+    cases.append({'files': [['pkgx.py', 'from _implx import Public, lazy_thing\n__all__ = [\'Public\', \'lazy_thing\', \'nosuch\']\n'],
+                            ['_implx.py', 'class Public: pass\ndef __getattr__(name): return 1\n']], 'docformat': 'epytext'})
     # every object hidden (nothing to index)
     cases.append({'files': [['solo.py', 'class K:\n    """doc"""\n']], 'docformat': 'epytext', 'args': ['--privacy=HIDDEN:solo'],
                   'tag': 'all_hidden'})
